@@ -338,10 +338,121 @@ class Framing(Suite):
         return repr(case)
 
 
+class Replaced(Suite):
+    """histories, not single round trips: a result is stored, then the task is forced and run returns another value
+    of the same data class - equal under == but not in element types (1 / 1.0 / True), shorter, or of another dtype;
+    optionally an interrupted earlier save has left its working file or directory behind.  The value a later
+    process loads is the one the last run returned.  Runtime check only."""
+    name = 'replaced_values'
+    model = ''
+
+    def gen(self, rng, tier):
+        J = lambda a, b: dict(first=dict(kind='json', value=a), second=dict(kind='json', value=b))
+        arr = lambda n, dt='int64': dict(kind='listnumpy', arrays=[[[i, i + 1], dt] for i in range(n)])
+        out = [J({'a': 1, 'b': [0, True]}, {'a': 1.0, 'b': [False, 1]}), J([1, 2, 3], [1.0, 2, 3]), J([0, 1], [False, True]),
+               J({'n': {'m': [1.0]}}, {'n': {'m': [1]}}), J({'a': 1}, {'a': 2}), J([1, 2, 3], [1, 2]), J({'a': 1, 'b': 2}, {'a': 1}),
+               dict(first=arr(5), second=arr(2)), dict(first=arr(12), second=arr(11)), dict(first=arr(3), second=arr(3, 'float32')),
+               dict(first=arr(0), second=arr(2)), dict(first=arr(2), second=arr(0)),
+               dict(first=dict(kind='generated', items=[1, 2, 3]), second=dict(kind='generated', items=[1.0, 2])),
+               dict(first=dict(kind='generated', items=[{'a': 0}]), second=dict(kind='generated', items=[{'a': False}])),
+               dict(first=dict(kind='generated', items=[1, 2]), second=dict(kind='generated', items=[])),
+               dict(first=dict(kind='numpy', dtype='int64', shape=[3], data=[1, 2, 3]),
+                    second=dict(kind='numpy', dtype='float64', shape=[3], data=[1.0, 2.0, 3.0])),
+               dict(first=dict(kind='numpy', dtype='int64', shape=[2, 2], data=[1, 2, 3, 4]),
+                    second=dict(kind='numpy', dtype='int64', shape=[4], data=[1, 2, 3, 4])),
+               dict(first=dict(kind='frame', index=[0, 1], columns=[['a', [1, 2], 'int64']]),
+                    second=dict(kind='frame', index=[0, 1], columns=[['a', [1.0, 2.0], 'float64']])),
+               dict(first=dict(kind='dir', files=[['a.txt', '00'], ['sub/b.bin', '0102'], ['c', '']]),
+                    second=dict(kind='dir', files=[['a.txt', '00']]))]
+        cases = []
+        for c in out:
+            for how in ('forced', 'leftover', 'forced_leftover'):
+                cases.append(dict(c, how=how))
+        return cases
+
+    def run_impl(self, case):
+        tmp = tempfile.mkdtemp(prefix='tcverif-rp-')
+        old = os.getcwd()
+        try:
+            os.chdir(tmp)
+            first, second, how = case['first'], case['second'], case['how']
+
+            def chain(root='data'):
+                from taskchain import Config
+                return Config(Path(root), name='cfg', data={'tasks': [sys.modules['tcv_dyn_rt'].Rt]}).chain()
+
+            def compute_first(root):
+                t = chain(root)['rt:rt']
+                _ = t.value
+                return dict(path=str(t.data_path))
+
+            def compute_second():
+                t = chain()['rt:rt']
+                if 'forced' in how:
+                    t.force()
+                return dict(computing=describe(t.value), returned=describe(build(second)) if second['kind'] != 'dir' else None)
+
+            def load():
+                t = chain()['rt:rt']
+                return dict(has=bool(t.has_data), loaded=describe(t.value))
+            make_task_module(first)
+            if 'forced' in how:
+                a = in_child(lambda: compute_first('data'))
+                if 'child_error' in a:
+                    return dict(setup_error=a['child_error'])
+            if 'leftover' in how:
+                # what a save of the first value leaves when it is interrupted before publication: its complete
+                # working file / directory under the working name
+                a = in_child(lambda: compute_first('scratch'))
+                if 'child_error' in a:
+                    return dict(setup_error=a['child_error'])
+                src = Path(a['path'])
+                dst = Path('data') / src.relative_to('scratch')
+                dst = dst.with_name(dst.stem + '_tmp' + dst.suffix)
+                dst.parent.mkdir(parents=True, exist_ok=True)
+                if src.is_dir():
+                    shutil.copytree(src, dst)
+                else:
+                    shutil.copyfile(src, dst)
+            make_task_module(second)
+            b = in_child(compute_second)
+            if 'child_error' in b:
+                return dict(compute_error=b['child_error'])
+            c = in_child(load)
+            if 'child_error' in c:
+                return dict(load_error=c['child_error'], computing=b['computing'])
+            return dict(b, **c)
+        finally:
+            os.chdir(old)
+            sys.modules.pop('tcv_dyn_rt', None)
+            shutil.rmtree(tmp, ignore_errors=True)
+
+    def oracle(self, case, obs):
+        if 'unexpected_exception' in obs:
+            return f'unexpected exception {obs["unexpected_exception"]}: {obs["text"]}'
+        for k in ('setup_error', 'compute_error'):
+            if k in obs:
+                return f'{case["how"]}: computing fails: {obs[k]}'
+        if 'load_error' in obs:
+            return f'{case["how"]}: the value stored by the last run cannot be loaded by a later chain: {obs["load_error"]}'
+        if not obs['has']:
+            return 'the later chain finds no stored result'
+        if obs['loaded'] != obs['computing']:
+            return (f'{case["how"]}: the later chain loads {json.dumps(obs["loaded"])[:300]}, the last run returned '
+                    f'{json.dumps(obs["computing"])[:300]} (first value: {json.dumps(case["first"])[:200]})')
+        return None
+
+    def nontrivial(self, case, obs):
+        return 'loaded' in obs
+
+    def key(self, case):
+        return repr(case)
+
+
 class C06(Prop):
     pid = 'C06'
     level = 'other'
-    suites = [Framing(), RoundTrips()]
+    suites = [Framing(), RoundTrips(), Replaced()]
     explanation = ('proof of the framing and guard logic taskchain adds around the serializers (json-lines framing, value '
                    'guard, numeric file order, load purity) + translation validation of the serializers themselves: every '
                    'data class, computing chain vs later chain in a fresh process, type-/dtype-/shape-/order-sensitive comparison')
